@@ -473,7 +473,11 @@ class World:  # pylint: disable=too-many-instance-attributes,too-many-public-met
             key = self.model_key(side, j)
             if key is not None and key not in present:
                 present.append(key)
-        absent = [absent_key(side.hash_type, i) for i in range(op.get('absent', 0))]
+        extra_absent = []
+        if 'concrete' in op:  # engine B: keys resolved once, so that a re-run targets the same objects
+            extra_absent = [k for k in op['concrete'] if k not in side.model]
+            present = [k for k in op['concrete'] if k in side.model]
+        absent = extra_absent + [absent_key(side.hash_type, i) for i in range(op.get('absent', 0))]
         # C11 speaks of a *set* of keys: no repeated key in the request (a repeated key that has a stray duplicate
         # file makes delete_objects raise FileNotFoundError - recorded in DESIGN.md 4b, outside the property)
         request = present + absent
@@ -500,7 +504,7 @@ class World:  # pylint: disable=too-many-instance-attributes,too-many-public-met
             except NotExistent:
                 return {}
             self.fail('missing-exception', 'loosen_object(absent) did not raise NotExistent')
-        key = self.model_key(side, op.get('key', 0))
+        key = op.get('concrete_key') or self.model_key(side, op.get('key', 0))
         if key is None:
             self.stats['skipped'] += 1
             return {'skipped': True}
